@@ -84,7 +84,7 @@ func encodeNode(n M) []byte {
 		b.Write(q[:])
 		binary.LittleEndian.PutUint64(q[:], uint64(num(n, "size")))
 		b.Write(q[:])
-		b.Write(prbytes("hdsig:"+str(n, "sig"), 16))
+		b.Write(hdSig(str(n, "sig")))
 		b.Write([]byte{byte(num(n, "format")), byte(num(n, "sigtype"))})
 	case "file":
 		u := utf16units(cpsString(list(n, "path")))
@@ -248,11 +248,16 @@ func runBoot(sc M) {
 					}
 				case device.HardDriveMediaDevicePath:
 					if str(n, "kind") != "hd" || int(d.PartitionNumber) != num(n, "part") || binary.LittleEndian.Uint64(d.PartitionStart[:]) != uint64(num(n, "start")) ||
-						binary.LittleEndian.Uint64(d.PartitionSize[:]) != uint64(num(n, "size")) || !bytes.Equal(d.PartitionSignature[:], prbytes("hdsig:"+str(n, "sig"), 16)) ||
+						binary.LittleEndian.Uint64(d.PartitionSize[:]) != uint64(num(n, "size")) || !bytes.Equal(d.PartitionSignature[:], hdSig(str(n, "sig"))) ||
 						int(d.PartitionFormat) != num(n, "format") || int(d.SignatureType) != num(n, "sigtype") || d.Type != 4 || d.SubType != 1 {
 						fail("node %d decoded as %+v, want %v", k, d, n)
 					}
-					re := regexp.MustCompile(fmt.Sprintf(`^HD\(%d,%s,[^,()]+,0x%x,0x%x\)$`, num(rnd, "part"), str(rnd, "type"), num(rnd, "start"), num(rnd, "size")))
+					sigText := `[^,()]+` // MBR and unknown signature types: the text of the signature is not constrained here
+					if num(n, "sigtype") == 2 {
+						// a GUID signature is written as GUID text: 36 characters, five groups of 8-4-4-4-12 hexadecimal digits
+						sigText = `[0-9a-fA-F]{8}-[0-9a-fA-F]{4}-[0-9a-fA-F]{4}-[0-9a-fA-F]{4}-[0-9a-fA-F]{12}`
+					}
+					re := regexp.MustCompile(fmt.Sprintf(`^HD\(%d,%s,%s,0x%x,0x%x\)$`, num(rnd, "part"), str(rnd, "type"), sigText, num(rnd, "start"), num(rnd, "size")))
 					if txt := d.Format(); !re.MatchString(txt) {
 						fail("node %d renders as %q, specification HD(%d,%s,<sig>,0x%x,0x%x)", k, txt, num(rnd, "part"), str(rnd, "type"), num(rnd, "start"), num(rnd, "size"))
 					}
@@ -285,6 +290,15 @@ func runBoot(sc M) {
 	}
 	emit(ev)
 	_ = strings.ToUpper
+}
+
+// hdSig: the 16 signature bytes of a hard-drive node; "z0" starts (in either byte order of its first group) with a zero digit
+func hdSig(id string) []byte {
+	b := prbytes("hdsig:"+id, 16)
+	if id == "z0" {
+		b[0], b[1], b[2], b[3] = 0x05, 0x00, 0x0a, 0x07
+	}
+	return b
 }
 
 // bootOrderVia decodes boot-order bytes through the store-backed accessor.
